@@ -5,7 +5,8 @@ SPEC = {
     'claimed': True,
     'theorems': ['C22_accepted_implies_acceptable_partial', 'C22_group_members_checked',
                  'C22_rejected_leaves_pool_unchanged', 'C22_accepted_appends_one',
-                 'C22_accepted_implies_acceptable_refuted', 'C22_refuted_forward', 'C22_refuted_wrapper',
+                 'C22_group_wrapper_is_head', 'C22_foreign_wrapper_rejected', 'C22_wrapper_witness_rejected',
+                 'C22_accepted_implies_acceptable_refuted', 'C22_refuted_forward',
                  'C22_refuted_negfee', 'C22_refuted_hdrempty', 'C22_guards_satisfiable'],
     'allowed_axioms': [],
     'shard': 20,
@@ -15,20 +16,28 @@ SPEC = {
             '(blockchain: header, sync state, on-chain hashes; execs: CheckTx verdicts; rpc: evm nonces; p2p) are scripted; '
             'after every message the reply class (20 classes) and the membership of every hash of the history '
             '(EventTxListByHash) and EventGetMempoolSize are recorded. Transactions are real (secp256k1 / secp256k1eth '
-            'signatures, CreateTxGroup-style groups of 2-8) and carry their facts by construction. Streams: witness-* (the 4 '
-            'refutation witnesses), matrix (every single-clause violation x {plain, group head, member 1, last member} x '
-            '{main chain, parachain}, each next to an accepted twin), matrix-pairs (pairs of violations), matrix-tiers (fee '
+            'signatures, CreateTxGroup-style groups of 2-8) and carry their facts by construction. Streams: witness-* (the 3 '
+            'refutation witnesses and the former witness of the fixed finding 2: foreign wrapper refused, the other account\'s '
+            'transaction and an honestly wrapped group admitted), matrix (every single-clause violation x {plain, group head, '
+            'member 1, last member} x {main chain, parachain}, each next to an accepted twin; for groups also the five '
+            'foreign-wrapper kinds: other signer, other fee = other hash, eth signer with chosen nonce, other signature '
+            'bytes, no signature), matrix-pairs (pairs of violations), matrix-tiers (fee '
             'tiers at and around the boundaries, MaxTxNumber 10/20), matrix-limits (per-sender limit, capacity, '
-            'resubmission), guarded (random histories satisfying the 4 guards: every spec failure is a violation), '
-            'unrestricted (may be forwarded, have a foreign wrapper, a negative fee under rate 0, a ground header). Random '
+            'resubmission), guarded (random histories satisfying the 3 guards, 1 group in 10 with a foreign wrapper: every spec '
+            'failure is a violation), unrestricted (may be forwarded, have a negative fee under rate 0, a ground header). Random '
             'configuration per history: main/para, MaxTxNumber 10..10000, MinTxFeeRate 0/1000/100000, tiered fee, MaxTxFeeRate, '
             'per-sender limit 1-3, capacity 2-6, exec check on/off, synced or not, height 1-30, block time, evm nonces. '
             'non-trivial = at least one accepted and one rejected submission; distinct = distinct Gallina case terms',
     'trusted_base': [
         'elementary facts are inputs of the model: signature validity, recipient validity, blacklist hit, on-chain, '
-        'executor verdict, sender identity, hash identity, proto size, "Header parses as an empty Transactions"; the harness '
+        'executor verdict, sender identity, hash identity, identity of the Signature message, proto size, "Header parses as '
+        'an empty Transactions"; the harness '
         'creates each fact by construction (it signs or corrupts, picks a valid/invalid/blacklisted address, scripts the '
         'blockchain/execs/rpc replies) and measures only Size, Hash identity and header decodability',
+        'facts_consistent (hypothesis of the main theorem): for a group\'s wrapper o and first member h, equal hash identity '
+        'implies equal Nonce and Fee (Hash() covers both) and equal Signature identity implies equal sender and sign type '
+        '(both are functions of the Signature message); check_case evaluates it on the measured facts of every submission '
+        '(a failure counts as a model disagreement)',
         'neighbour modules are scripted on the message queue (as in the repository\'s own mempool tests): util.CheckDupTx, '
         'the executor check and getCurrentNonce run for real against scripted replies; the real blockchain/executor '
         'answers are not part of this property',
@@ -44,16 +53,19 @@ SPEC = {
         'cfg_ok: MinTxFeeRate >= 0 and MaxTxFeeRate >= 0',
         'the header is fixed during a history (no EventAddBlock between submissions) and the clock is pinned with '
         'types.SetTimeDelta; submissions are sequential (one reply awaited before the next message)',
-        'partial: guards g_fwd, g_wrap, g_fee, g_hdr (each shown necessary by a refutation reproduced on the Go code)',
+        'partial: guards g_fwd, g_fee, g_hdr (each shown necessary by a refutation reproduced on the Go code); the former '
+        'guard g_wrap is gone (finding 2 fixed in chain33 1d587b5)',
     ],
     'manifest': {
-        'level_text': 'partial: "accepted implies acceptable" proved for all configurations, pools and submissions under four '
+        'level_text': 'partial: "accepted implies acceptable" proved for all configurations, pools and submissions under three '
                       'boolean guards; without each guard the statement is refuted on the model and reproduced on the real '
-                      'mempool (4 open findings: parachain forwarding shortcut, unauthenticated group wrapper, negative fee '
-                      'under zero minimum rate, group-member expiry skipped when the group hash parses as protobuf). '
+                      'mempool (3 open findings: parachain forwarding shortcut, negative fee under zero minimum rate, '
+                      'group-member expiry skipped when the group hash parses as protobuf). The fourth finding '
+                      '(unauthenticated group wrapper) is fixed in chain33 1d587b5: the wrapper of an admitted group is proved '
+                      'to be its first transaction (same hash, same signature) and any other wrapper is proved refused. '
                       'Rejected submissions leave the pool unchanged; accepted ones append exactly the submitted transaction',
         'level_note': 'model = hand-written Gallina transcription of eventTx/checkTxs/checkTx/checkLevelFee/checkSign/'
-                      'checkTxRemote/evmTxNonceCheck/txCache.Push and Transaction(s).Check/GetRealFee/isExpire over abstract '
+                      'isGroupHead/checkTxRemote/evmTxNonceCheck/txCache.Push and Transaction(s).Check/GetRealFee/isExpire over abstract '
                       'transaction facts; tied to the Go code by per-submission correspondence of reply class and pool '
                       'membership; neighbour modules scripted',
         'technique': 'Coq proof (case analysis of the admission pipeline; refutations by computation) + in-kernel correspondence check',
